@@ -215,6 +215,23 @@ def work(ctx, tier):
         ctx.inc("scenarios")
         if k < 1 and ctx.shard == 0:
             ctx.sample({"scenario": sc, "entries_compared": ents, "reference_projection": [list(map(str, ref[0][0][:20])), str(ref[0][1])]})
+    # the async entry points among themselves when the task is cancelled at one of its suspension points (inside the operation, inside an
+    # awaitable sleeper during the backoff, inside an awaitable before_sleep hook): the same trail up to that point, nothing after it
+    for k in range((150 if tier == "quick" else 4000) // ctx.nshards):
+        sc = gen.rand_scenario(rng, max_attempts=(2, 4), p_special=0.0, p_budget=0.2, p_handler=0.2, p_abort=0.0, ncalls=(1, 1), p_before_sleep=0.5)
+        sc["sleeper_kind"] = "async"
+        sc["bs_kind"] = rng.choice(["sync", "async"])
+        if sc["place"].get("sleeper") == "none":
+            sc["place"]["sleeper"] = "call"
+        c0 = sc["calls"][0]
+        for i in range(len(c0["outcomes"]) - 1):
+            if c0["outcomes"][i][0] == "ok":
+                c0["outcomes"][i] = [rng.choice(["exc", "res"]), rng.choice(gen.RETRYABLE), None]
+        sc["fault"] = {"kind": "throw", "exc": "cancel", "at": rng.choice([0, 1, 1, 2, 2, 3, 4])}
+        ents = [e for e in rig.ASYNC_ENTRIES]
+        rng.shuffle(ents)
+        compare(ctx, sc, ents[:6], stats)
+        ctx.inc("scenarios_cancelled_at_a_suspension_point")
     # systematic: a policy without a retry component but with a breaker, whose operation ends with each kind of final outcome - in
     # particular a nested policy giving up (RetryExhaustedError carrying each class, or none): call() and execute(), sync and async,
     # must tell the breaker the same thing
